@@ -586,9 +586,10 @@ class Dense(Monitor):
             a, b = t[j], t[j + 1]
             if a == b or spiked:
                 continue        # a spiked rhs value may sit in an end slope: only coverage/order are meaningful then
-            for jj in (j, j + 1):
-                if slopes[jj] is None:
-                    slopes[jj] = np.asarray(f(t[jj], y[jj]), dtype=dtype)
+            # both end slopes of a piece are slopes of the right-hand side that was in force when ITS step was taken (a history may
+            # assign new constants between two calls: at that row the two adjoining pieces belong to different right-hand sides)
+            cj_ = world.consts_for_row(j + 1)
+            slopes = {j: np.asarray(world.problem.f(t[j], y[j], **cj_), dtype=dtype), j + 1: np.asarray(world.problem.f(t[j + 1], y[j + 1], **cj_), dtype=dtype)}
             ref = RefHermite(a, b, y[j], y[j + 1], slopes[j], slopes[j + 1])
             sc = ref.scale()
             # (b) grid reproduction
